@@ -27,6 +27,8 @@ POOLS = ['util.inference_util.pool_rdm', 'util.pooling.pool_rdm']
 
 
 def run(ctx, obs):
+    from ..rules import sweeps
+    sweeps.run(ctx, obs, 'C07')
     boot(ctx, obs)
     cv(ctx, obs)
     for q in POOLS:
